@@ -172,6 +172,8 @@ class AdapterModel:
             why = ""
             try:
                 import lib_arith
+                if cond[0] == "multi" and not self._guard_var_is_fresh(cond[1], sb):
+                    raise lib_arith.Unknown("the guard variable is not re-evaluated after the queue changed")
                 table = lib_arith.guard_table(ctx, b, cond, counter, slots_field)
             except Exception as ex:  # Unknown / anything: fall back to the shape rule
                 why = "%s: %s" % (type(ex).__name__, ex)
@@ -191,6 +193,29 @@ class AdapterModel:
                         if ".stream" in arg:
                             gone = lab[2] if lab[1][1].endswith("is_none") else (not lab[2])
                             self.tails.setdefault(sb, {})[tgt] = gone
+
+    def _guard_var_is_fresh(self, local, sb):
+        """The guard is a bool local tested at block sb: between each of its definitions and the test nothing pushes into or
+        polls the queue (so the tested value is the guard formula on the queue's current state)."""
+        b, fl = self.b, self.fl
+        dirty = set(self.pushes) | set(self.inner)
+        for (db, idx, kind, node) in fl.defs.get(local, []):
+            seen = set()
+            work = [x for x in b.normal_succ(db)] if db != sb else []
+            if db in dirty and kind != "call":
+                # a push in the defining block itself: must come before the definition (block = call terminator last)
+                return False
+            while work:
+                x = work.pop()
+                if x in seen or x == sb or b.is_cleanup(x):
+                    continue
+                seen.add(x)
+                if x in dirty:
+                    return False
+                if any(d[0] == x for d in fl.defs.get(local, [])):
+                    continue          # redefined: that definition is examined on its own
+                work.extend(b.normal_succ(x))
+        return True
 
     def _follower_fields(self):
         """Option-typed fields X of the adapter that are emptied only together with the upstream (`stream.set(None); *f = None`):
